@@ -254,6 +254,10 @@ func (m *machine) step(ins instr) int {
 			b := x.reg
 			n.level = min(a.level, b.level)
 			n.degree = max(a.degree, b.degree)
+			if ins.dest == "reused" && n.degree < 2 {
+				// Add/Sub resize opOut to max(op0, op1, opOut) degree and never touch the extra component
+				m.defect = "C06/Add-Sub/larger-degree-receiver-keeps-old-component"
+			}
 			n.v = cklib.Map2(a.v, b.v, pm)
 			switch a.scale.Cmp(b.scale) {
 			case 0:
@@ -553,6 +557,10 @@ func (m *machine) step(ins instr) int {
 		if conj && e.ci {
 			return m.expectError(ins, err, "Conjugate in the conjugate-invariant ring")
 		}
+		if ins.dest == "reused" {
+			// "The method will return an error if either ctIn or opOut degree is not equal to 1": the reused receiver has degree 2
+			return m.expectError(ins, err, "automorphism into a degree != 1 receiver")
+		}
 		if a.degree != 1 {
 			return m.expectError(ins, err, "automorphism of a degree != 1 ciphertext")
 		}
@@ -645,6 +653,9 @@ func (m *machine) step(ins instr) int {
 			tgt = ratMul(e.delta, big.NewRat(5, 2))
 		}
 		ratio := ratQuo(tgt, a.scale)
+		if !ratio.IsInt() && a.level-e.k+1 < 0 {
+			m.defect = sigConstLevel0 // SetScale multiplies by the non-integer ratio first
+		}
 		if !ratio.IsInt() && a.level >= 1 && a.level-e.k < 0 {
 			// 128-bit mode, level 1: the inner RescaleTo loop runs while newLevel >= 0 and ends at level -1
 			m.defect = "C06/RescaleTo/loop-reaches-level-minus-one"
